@@ -62,6 +62,158 @@ def stepNV (args : List String) : Option String :=
     some s!"{rs} out={hexOrDash s.out}"
   | _ => none
 
+
+def parsePairs (s : String) : Option (List (Bytes × Bytes)) :=
+  if s == "-" then some [] else
+  (s.splitOn ",").mapM fun item =>
+    match item.splitOn ":" with
+    | [a, b] => do
+      let x ← bytesOfHex a
+      let y ← bytesOfHex b
+      some (x, y)
+    | _ => none
+
+def showOrd : Ordering → String
+  | .lt => "lt" | .eq => "eq" | .gt => "gt"
+
+def showOptNat : Option Nat → String
+  | none => "none" | some n => toString n
+
+def parseOptNat (s : String) : Option (Option Nat) :=
+  if s == "none" then some none else (natArg s).map some
+
+def showCsv (l : List Nat) : String := if l.isEmpty then "-" else String.intercalate "," (l.map toString)
+
+def showProtoErr : ProtoErr → String
+  | .unknownVersion v => s!"err version {v.toNat}"
+  | .unknownRecordType t => s!"err rtype {t.toNat}"
+  | .unknownRole r => s!"err role {r}"
+  | .unknownStatus x => s!"err status {x.toNat}"
+
+def stepProto (args : List String) : Option String :=
+  match args with
+  | ["hdr.dec", h] => do
+    let bs ← bytesOfHex h
+    match RecordHeader.fromBytes bs with
+    | none => some "short"
+    | some (.error e) => some (showProtoErr e)
+    | some (.ok hd) => some s!"ok {hd.rtype} {hd.requestId} {hd.contentLength} {hd.paddingLength} mgmt={hd.isManagement} re={hexOfBytes hd.toBytes}"
+  | ["hdr.enc", t, i, c, p] => do
+    let hd : RecordHeader := { rtype := ← natArg t, requestId := ← natArg i, contentLength := ← natArg c, paddingLength := ← natArg p }
+    some (hexOfBytes hd.toBytes)
+  | ["hdr.setlen", c] => do
+    let n ← natArg c
+    let hd := (RecordHeader.new RT.stdin 1).setLengths n
+    some s!"{hd.contentLength} {hd.paddingLength}"
+  | ["begin.dec", h] => do
+    let bs ← bytesOfHex h
+    match BeginRequest.fromBytes bs with
+    | none => some "short"
+    | some (.error e) => some (showProtoErr e)
+    | some (.ok b) => some s!"ok {b.role} {b.flags.toNat} re={hexOfBytes b.toBytes}"
+  | ["begin.rec", r, f, i] => do
+    let b : BeginRequest := { role := ← natArg r, flags := UInt8.ofNat (← natArg f) }
+    some (hexOfBytes (b.toRecord (← natArg i)))
+  | ["end.dec", h] => do
+    let bs ← bytesOfHex h
+    match EndRequest.fromBytes bs with
+    | none => some "short"
+    | some (.error e) => some (showProtoErr e)
+    | some (.ok e) => some s!"ok {e.appStatus} {e.protocolStatus} re={hexOfBytes e.toBytes}"
+  | ["end.rec", a, ps, i] => do
+    let e : EndRequest := { appStatus := ← natArg a, protocolStatus := ← natArg ps }
+    some (hexOfBytes (e.toRecord (← natArg i)))
+  | ["unk.dec", h] => do
+    let bs ← bytesOfHex h
+    match UnknownType.fromBytes bs with
+    | none => some "short"
+    | some t => some s!"ok {t.toNat} re={hexOfBytes (UnknownType.toBytes t)}"
+  | ["unk.rec", t, i] => do
+    some (hexOfBytes (UnknownType.toRecord (UInt8.ofNat (← natArg t)) (← natArg i)))
+  | ["exit.map", k, c] => do
+    let code ← natArg c
+    let st ← (match k with
+      | "complete" => some (ExitStatus.complete code)
+      | "overloaded" => some ExitStatus.overloaded
+      | "unknownrole" => some ExitStatus.unknownRole
+      | "abort" => some ExitStatus.abort
+      | "success" => some (ExitStatus.complete 0)
+      | _ => none)
+    let e := st.toEndRequest
+    some s!"{e.appStatus} {e.protocolStatus}"
+  | ["vars.name", h] => do
+    let bs ← bytesOfHex h
+    match Vars.parseName bs with
+    | some b => some s!"ok {b}"
+    | none => some "unknown"
+  | ["vars.resp", set, mc, pre, _target] => do
+    let preb ← bytesOfHex pre
+    let (out, n) := Vars.writeResponse (← natArg set) preb (← natArg mc)
+    some s!"{n} {hexOfBytes (out.drop preb.length)} preserved={out.take preb.length == preb}"
+  | ["cfg.aligned", b] => do
+    some (toString (alignedBufsize (← natArg b)))
+  | ["role.streams", r] => do
+    let role ← natArg r
+    some s!"in={showCsv (inputStreams role)} out={showCsv (outputStreams role)}"
+  | ["role.next", r, c] => do
+    some (showOptNat (nextInputStream (← natArg r) (← parseOptNat c)))
+  | _ => none
+
+def showOwned (o : CgiName.Owned) : String := hexOrDash o.asRef
+
+def mkOwned (ctor : String) (arg : String) : Option CgiName.Owned :=
+  match ctor with
+  | "str" | "varname" | "toowned" | "cowb" => (bytesOfHex arg).map CgiName.fromStr
+  | "string" | "box" | "cowo" | "mutstr" => (bytesOfHex arg).map CgiName.fromCompact
+  | "static" => (bytesOfHex arg).bind fun b => (CgiName.lookup b).map CgiName.Owned.static
+  | "header" => (bytesOfHex arg).map CgiName.fromHeaderName
+  | _ => none
+
+def stepName (args : List String) : Option String :=
+  match args with
+  | ["name.rel", a, b] => do
+    let x ← bytesOfHex a
+    let y ← bytesOfHex b
+    some s!"eq={CgiName.eqIgnoreCase x y} cmp={showOrd (CgiName.cmp x y)} heq={CgiName.hashWrites x == CgiName.hashWrites y}"
+  | ["name.hash", a] => do
+    let x ← bytesOfHex a
+    some (String.intercalate "|" ((CgiName.hashWrites x).map hexOfBytes))
+  | ["static.parse", a] => do
+    let x ← bytesOfHex a
+    match CgiName.lookup x with
+    | some i => some s!"ok {hexOrDash (CgiName.table.getD i [])}"
+    | none => some "err"
+  | ["owned.mk", c, a] => do
+    let o ← mkOwned c a
+    some (showOwned o)
+  | ["owned.rel", c1, a, c2, b] => do
+    let x ← mkOwned c1 a
+    let y ← mkOwned c2 b
+    some s!"eq={x.eq y} cmp={showOrd (x.cmp y)} heq={x.hashWrites == y.hashWrites} a={showOwned x} b={showOwned y}"
+  | _ => none
+
+def parseSink (cap : String) : Option Sink :=
+  if cap == "vec" then some (Sink.vec []) else (natArg cap).map Sink.slice
+
+def stepResp (args : List String) : Option String :=
+  match args with
+  | ["resp.redirect", cap, loc] => do
+    let w ← parseSink cap
+    let l ← bytesOfHex loc
+    match Response.simpleRedirect w l with
+    | (w', some n) => some s!"ok {n} out={hexOrDash w'.out}"
+    | (w', none) => some s!"err out={hexOrDash w'.out}"
+  | [op, cap, code, reason, hs] => do
+    if op != "resp.headers" && op != "resp.httph" then none
+    let w ← parseSink cap
+    let c ← natArg code
+    let r ← (if reason == "none" then some none else (bytesOfHex reason).map some)
+    let hdrs ← parsePairs hs
+    match Response.writeHeaders w c r hdrs with
+    | (w', some n) => some s!"ok {n} out={hexOrDash w'.out}"
+    | (w', none) => some s!"err out={hexOrDash w'.out}"
+  | _ => none
+
 def step (st : DState) (line : String) : DState × String :=
   if line.startsWith "#" then (st, line) else
   let args := (line.splitOn " ").filter (· ≠ "")
@@ -69,6 +221,15 @@ def step (st : DState) (line : String) : DState × String :=
   | some o => (st, o)
   | none =>
   match stepNV args with
+  | some o => (st, o)
+  | none =>
+  match stepProto args with
+  | some o => (st, o)
+  | none =>
+  match stepName args with
+  | some o => (st, o)
+  | none =>
+  match stepResp args with
   | some o => (st, o)
   | none => (st, "bad-op")
 
